@@ -215,21 +215,40 @@ Example C13_kernel_doctest :
            oscore_seqno.fsc_sequence_number_chunksize := 40; oscore_seqno.fsc_sequence_number_chunksize_limit := 10000 |}, 10).
 Proof. vm_compute. reflexivity. Qed.
 
-(* ---- _store raising instead of dying (round 5, audit gap 2; OPEN FINDING C13:store-error-*, fixes/C13-store-error-rollback.diff) ----
-   [ev_ok] / [ev_ok2] exclude ProtectFails / UnprotectFails; the faithful model shows why: post_seqnoincrease advances
-   sequence_number_persisted BEFORE _store, so after an OSError the next numbers are handed out above the bound on disk ... *)
-Example C13_store_error_refuted :
+(* ---- _store raising OSError instead of dying (round 5 / 5b; fixed in /repo 304561f: the callers roll back) ----
+   ProtectFails k / UnprotectFails r k are ordinary events of every theorem above ([ev_ok], [ev_ok2] do not exclude them). *)
+(* protect() during which _store raises: either no write was needed and the number is within the reservation, or nothing is
+   handed out and "persisted = bound on disk" still holds (the reservation is rolled back) *)
+Theorem C13_store_error_rolled_back : forall p d k hi, hi <= dbound d -> PInv p d hi ->
+  match new_sequence_number_fails p d k with
+  | (p', d', Val v) => v = ssn p /\ v < MAX_SEQNO /\ PInv p' d' (v + 1) /\ v + 1 <= dbound d'
+  | (p', d', Exn e) => PInv p' d' hi /\ hi <= dbound d'
+  | (p', d', Died) => hi <= dbound d'
+  end.
+Proof. exact nsn_fails_step. Qed.
+Print Assumptions C13_store_error_rolled_back.
+(* unprotect during which the "unknown" write fails: not accepted, flag set again, sequence.json untouched *)
+Theorem C13_store_error_window_flag_rolled_back : forall p d k r,
+  strikes (uc p) (snd (unprotect_request (uc p) r)) = true -> wpers p = true ->
+  match unprotect_fails p d k r with
+  | (p', d', res) => res = Exn OSError /\ wpers p' = true /\ d_seq d' = d_seq d /\ d_durable d' = d_durable d
+  end.
+Proof. exact unprotect_fails_rolled_back. Qed.
+Print Assumptions C13_store_error_window_flag_rolled_back.
+(* the two histories that were refutation witnesses before the fix: 10 is not handed out, 11..15 come from a fresh reservation
+   (bound 30 on disk), the reload starts at 30; and 6 is written off as "unknown" when accepted, so it is not accepted again *)
+Example C13_store_error_doctest :
   issued (snd (run (initial_world 32 None)
      [Reload 10 10000 1000; Seq 10 None; ProtectFails 1; Seq 5 None; Kill; Reload 10 10000 1005; Seq 2 None]))
-  = [0; 1; 2; 3; 4; 5; 6; 7; 8; 9;  11; 12; 13; 14; 15;  10; 11].
+  = [0; 1; 2; 3; 4; 5; 6; 7; 8; 9;  11; 12; 13; 14; 15;  30; 31].
 Proof. vm_compute. reflexivity. Qed.
-(* ... and _replay_window_changed clears replay_window_persisted BEFORE _store, so after an OSError later acceptances are never
-   reflected on disk: 6 is accepted, the process dies, and 6 is accepted again by the reloaded (here: fresh) window *)
-Example C13_store_error_replay_refuted :
+Example C13_store_error_replay_doctest :
   let evs := [Reload 10 10000 1000; UnprotectFails {| seqno := 5; authentic := true; echo := None |} 0;
               Unprotect {| seqno := 6; authentic := true; echo := None |} None; Kill;
-              Reload 10 10000 1004; Unprotect {| seqno := 6; authentic := true; echo := None |} None] in
-  accepted evs (snd (run (initial_world 32 None) evs)) = [6; 6].
+              Reload 10 10000 1004; Unprotect {| seqno := 6; authentic := true; echo := None |} None;
+              Unprotect {| seqno := 7; authentic := true; echo := Some 1004 |} None] in
+  snd (run (initial_world 32 None) evs) =
+  [OLoaded 0 true; OExn OSError; OUnprot Accept; ODied; OLoaded 0 false; OUnprot RejectEcho; OUnprot Accept].
 Proof. vm_compute. reflexivity. Qed.
 (* a response to a window-accepted request reuses its nonce once; the Echo challenge and the Echo-recovered request never do *)
 Example C13_reuse_doctest :
